@@ -93,6 +93,11 @@ FUNCS = {
 }
 
 
+# C01 states its tolerance (1e-9 of the output's max-norm) for every data class of its quantifier: the periodogram of
+# single-precision samples is still |DFT(x*w)|^2/N of those sample values to double-precision accuracy.
+TOL = {"C01": 1e-9}
+
+
 def oracle(pid):
     def run(p):
         x32 = np.asarray(p["x"])
@@ -107,7 +112,7 @@ def oracle(pid):
         if a.shape != b.shape:
             return ["%s returns %d values for %s data and %d for the same samples in double precision" % (
                 p["fn"], a.size, x32.dtype, b.size)]
-        if not np.all(np.isfinite(a)) or rel(a, b) > 2e-3:
+        if not np.all(np.isfinite(a)) or rel(a, b) > TOL.get(pid, 2e-3):
             return ["%s on %s data differs from the result for the same sample values in double precision: rel err %.2e (N=%d)" % (
                 p["fn"], x32.dtype, rel(a, b) if np.all(np.isfinite(a)) else float("inf"), len(x32))]
         return []
